@@ -1,3 +1,3 @@
 SPECIFICATION Spec
-INVARIANTS Inv_WellFormed Inv_C02_Order Inv_C02_LegalType Inv_C02_AllAnswered
+INVARIANTS Inv_WellFormed Inv_C02_OwnPayload Inv_C02_Order Inv_C02_LegalType Inv_C02_AllAnswered
 CHECK_DEADLOCK FALSE
